@@ -1,1 +1,94 @@
-//! (filled in with the find properties)
+//! Materialising the specification's file-tree values (see spec/FindWalk.tla) in a sandbox.
+use crate::util::*;
+use serde_json::Value;
+use std::os::unix::ffi::OsStrExt;
+use std::path::{Path, PathBuf};
+
+#[derive(Clone, Debug)]
+pub struct Node {
+    pub parent: usize, // 0 = the working directory
+    pub name: Vec<u8>,
+    pub kind: String, // "d" | "f" | "l"
+    pub target: usize, // for links: node id, 0 = dangling
+    pub extra: Value, // optional attributes (size, mode, link text, ...)
+}
+
+pub fn parse_tree(v: &Value) -> Vec<Node> {
+    arr(v)
+        .iter()
+        .map(|n| Node {
+            parent: n["parent"].as_u64().unwrap_or(0) as usize,
+            name: json_to_bytes(&n["name"]),
+            kind: n["kind"].as_str().unwrap_or("f").to_string(),
+            target: n.get("target").and_then(|t| t.as_u64()).unwrap_or(0) as usize,
+            extra: n.clone(),
+        })
+        .collect()
+}
+
+pub fn node_path(tree: &[Node], i: usize) -> PathBuf {
+    // i is 1-based
+    let mut comps = vec![];
+    let mut k = i;
+    while k != 0 {
+        comps.push(tree[k - 1].name.clone());
+        k = tree[k - 1].parent;
+    }
+    let mut p = PathBuf::new();
+    for c in comps.iter().rev() {
+        p.push(std::ffi::OsStr::from_bytes(c));
+    }
+    p
+}
+
+/// Create the tree below `base` (which must exist and be empty).
+pub fn materialize(base: &Path, tree: &[Node]) {
+    for (idx, n) in tree.iter().enumerate() {
+        let p = base.join(node_path(tree, idx + 1));
+        match n.kind.as_str() {
+            "d" => {
+                std::fs::create_dir(&p).unwrap_or_else(|e| panic!("mkdir {:?}: {}", p, e));
+            }
+            "l" => {
+                let text: PathBuf = if let Some(t) = n.extra.get("text").filter(|t| !t.is_null()) {
+                    PathBuf::from(std::ffi::OsStr::from_bytes(&json_to_bytes(t)))
+                } else if n.target == 0 {
+                    PathBuf::from(format!("nonexistent-{}", idx + 1))
+                } else {
+                    base.join(node_path(tree, n.target))
+                };
+                std::os::unix::fs::symlink(&text, &p).unwrap_or_else(|e| panic!("symlink {:?}: {}", p, e));
+            }
+            _ => {
+                let size = n.extra.get("size").and_then(|s| s.as_u64()).unwrap_or(0);
+                let f = std::fs::File::create(&p).unwrap_or_else(|e| panic!("create {:?}: {}", p, e));
+                if size > 0 {
+                    f.set_len(size).unwrap();
+                }
+            }
+        }
+    }
+    // modes last, deepest first, so that restrictive directory modes do not get in the way
+    for (idx, n) in tree.iter().enumerate().rev() {
+        if let Some(m) = n.extra.get("mode").and_then(|m| m.as_u64()) {
+            if n.kind != "l" {
+                use std::os::unix::fs::PermissionsExt;
+                let p = base.join(node_path(tree, idx + 1));
+                let _ = std::fs::set_permissions(&p, std::fs::Permissions::from_mode(m as u32));
+            }
+        }
+    }
+}
+
+/// A fresh, empty case directory `<sandbox>/<n>/w`; the previous one is removed.
+pub fn fresh_case_dir(sb: &Sandbox, counter: &mut u64) -> PathBuf {
+    let old = sb.path().join(format!("{}", *counter));
+    if old.exists() && std::fs::remove_dir_all(&old).is_err() {
+        let _ = std::process::Command::new("chmod").arg("-R").arg("u+rwx").arg(&old).stderr(std::process::Stdio::null()).status();
+        let _ = std::fs::remove_dir_all(&old);
+    }
+    *counter += 1;
+    let d = sb.path().join(format!("{}", *counter)).join("w");
+    std::fs::create_dir_all(&d).expect("case dir");
+    d
+}
